@@ -74,11 +74,13 @@ impl Op {
 }
 
 /// Draw the operation list of one run.  `cases` = indices (into the run's own case list) to use.
-pub fn draw_ops(rng: &mut Prng, cases: &[&Case]) -> Vec<Op> {
+pub fn draw_ops(rng: &mut Prng, cases: &[&Case], epic: bool) -> Vec<Op> {
     // one run in twelve is a long history on few threads (residue that accumulates per thread or
     // per process needs many operations, in particular many failing ones, to show)
-    let long = rng.below(12) == 0;
-    let n = if long { rng.range(60, 220) } else { rng.range(4, 24) };
+    let long = epic || rng.below(12) == 0;
+    // "epic" runs (small programs only): hundreds of compilations in one process, for state that
+    // wraps, fills up or expires only after many uses
+    let n = if epic { rng.range(300, 900) } else if long { rng.range(60, 220) } else { rng.range(4, 24) };
     let mut ops = Vec::new();
     // live slots, tracked symbolically
     let mut templates: Vec<(usize, bool)> = Vec::new(); // (case, live)
@@ -433,6 +435,103 @@ pub fn exec(
     (log, None)
 }
 
+/// Execute one run in a child process (`simreal legA-exec <file>`): the child gets the programs,
+/// the operations and the golden entries of those programs, and reports log, violation and stats.
+fn exec_isolated(
+    o: &Opts,
+    run: u64,
+    run_seed: u64,
+    ops_list: &[Op],
+    sel: &[&Case],
+    reference: &dyn Fn(usize, usize, bool) -> Option<Outcome>,
+    stats: &mut ExecStats,
+) -> Result<(Vec<String>, Option<Violation>), String> {
+    let mut table = Vec::new();
+    for (ci, c) in sel.iter().enumerate() {
+        for ai in 0..c.args.len() {
+            for d in [false, true] {
+                if let Some(out) = reference(ci, ai, d) {
+                    table.push(serde_json::json!({"case": ci, "args": ai, "debug": d, "outcome": out.to_json()}));
+                }
+            }
+        }
+    }
+    let doc = serde_json::json!({
+        "leg": "A", "run": run,
+        "programs": sel.iter().map(|c| c.to_json()).collect::<Vec<_>>(),
+        "ops": ops_list.iter().map(|o| o.to_json()).collect::<Vec<_>>(),
+        "reference": table,
+    });
+    let dir = o.out.join(format!("lega-{}", o.shard));
+    std::fs::create_dir_all(&dir).map_err(|e| e.to_string())?;
+    let file = dir.join("run.json");
+    std::fs::write(&file, doc.to_string()).map_err(|e| e.to_string())?;
+    let me = std::env::current_exe().map_err(|e| e.to_string())?;
+    let argv = vec!["legA-exec".to_string(), file.to_string_lossy().to_string()];
+    let r = crate::child::run(&me, &argv, run_seed | 1, &crate::child::Io::default()).map_err(|e| e.to_string())?;
+    if r.status != Some(0) {
+        return Err(format!("legA-exec ended with status {:?}: {}", r.status, String::from_utf8_lossy(&r.stderr).chars().take(500).collect::<String>()));
+    }
+    let v: serde_json::Value = serde_json::from_slice(&r.stdout).map_err(|e| format!("legA-exec output unreadable: {e}"))?;
+    let log: Vec<String> = v["log"].as_array().map(|a| a.iter().filter_map(|x| x.as_str().map(|s| s.to_string())).collect()).unwrap_or_default();
+    let st = &v["stats"];
+    let g = |k: &str| st.get(k).and_then(|x| x.as_u64()).unwrap_or(0);
+    stats.commits += g("commits");
+    stats.compiles += g("compiles");
+    stats.instantiates += g("instantiates");
+    stats.satisfy_observed += g("satisfy_observed");
+    stats.satisfy_divergence_observed_not_judged += g("satisfy_divergence");
+    stats.epochs += g("epochs");
+    stats.handle_crossed_epoch += g("handle_crossed_epoch");
+    stats.excluded_lib_panics += g("excluded_lib_panics");
+    if let Some(a) = st.get("orders").and_then(|x| x.as_array()) {
+        for x in a {
+            if let Some(n) = x.as_str().and_then(|s| u64::from_str_radix(s, 16).ok()) {
+                stats.distinct_orders.insert(n);
+            }
+        }
+    }
+    let viol = v.get("violation").filter(|x| !x.is_null()).map(|x| Violation {
+        class: x["class"].as_str().unwrap_or("").to_string(),
+        step: x["step"].as_u64().unwrap_or(0) as usize,
+        detail: x["detail"].as_str().unwrap_or("").to_string(),
+        expected: x["expected"].clone(),
+        observed: x["observed"].clone(),
+    });
+    Ok((log, viol))
+}
+
+/// `simreal legA-exec <file>`: the child side of `exec_isolated` (also what replay executes).
+pub fn exec_main(o: &Opts) -> i32 {
+    let Some(path) = o.rest.first() else { return 2 };
+    let Ok(text) = std::fs::read_to_string(path) else { return 2 };
+    let Ok(doc) = serde_json::from_str::<serde_json::Value>(&text) else { return 2 };
+    let cases: Vec<Case> = doc.get("programs").and_then(|p| p.as_array()).map(|a| a.iter().filter_map(Case::from_json).collect()).unwrap_or_default();
+    let ops_list: Vec<Op> = doc.get("ops").and_then(|p| p.as_array()).map(|a| a.iter().filter_map(Op::from_json).collect()).unwrap_or_default();
+    let mut table: std::collections::BTreeMap<(usize, usize, bool), Outcome> = Default::default();
+    for e in doc.get("reference").and_then(|r| r.as_array()).cloned().unwrap_or_default() {
+        if let (Some(c), Some(a), Some(d), Some(out)) = (e["case"].as_u64(), e["args"].as_u64(), e["debug"].as_bool(), Outcome::from_json(&e["outcome"])) {
+            table.insert((c as usize, a as usize, d), out);
+        }
+    }
+    let sel: Vec<&Case> = cases.iter().collect();
+    let reference = |c: usize, a: usize, d: bool| table.get(&(c, a, d)).cloned();
+    let mut stats = ExecStats::default();
+    let (log, viol) = exec(&ops_list, &sel, &reference, &mut stats);
+    let out = serde_json::json!({
+        "log": log,
+        "violation": viol.map(|v| serde_json::json!({"class": v.class, "step": v.step, "detail": v.detail, "expected": v.expected, "observed": v.observed})),
+        "stats": {
+            "commits": stats.commits, "compiles": stats.compiles, "instantiates": stats.instantiates,
+            "satisfy_observed": stats.satisfy_observed, "satisfy_divergence": stats.satisfy_divergence_observed_not_judged,
+            "epochs": stats.epochs, "handle_crossed_epoch": stats.handle_crossed_epoch, "excluded_lib_panics": stats.excluded_lib_panics,
+            "orders": stats.distinct_orders.iter().map(|x| format!("{x:x}")).collect::<Vec<_>>(),
+        },
+    });
+    println!("{out}");
+    0
+}
+
 pub fn run(o: &Opts) -> i32 {
     if !seam::present() {
         eprintln!("legA: shim not preloaded");
@@ -456,12 +555,16 @@ pub fn run(o: &Opts) -> i32 {
         }
         let s = mix(o.seed ^ tag("legA") ^ run);
         let mut rng = Prng::new(s);
+        let epic = rng.below(40) == 0;
         // 1..4 cases per run, biased to repeat few programs many times
         let k = rng.range(1, 4);
         // every other run draws its programs from one family (an original and texts derived from
         // it: same spans and names, other constants / layout), so that anything keyed by position
         // or by name across compilations gets near-identical programs on one thread
-        let idx: Vec<usize> = if rng.coin() {
+        let idx: Vec<usize> = if epic {
+            let small: Vec<usize> = (0..cases.len()).filter(|i| cases[*i].text.len() < 2500).collect();
+            (0..k.max(2)).map(|_| *rng.pick(&small)).collect()
+        } else if rng.coin() {
             let derived: Vec<usize> = (0..cases.len()).filter(|i| cases[*i].family != *i).collect();
             let fam = if derived.is_empty() { cases[rng.below(cases.len())].family } else { cases[*rng.pick(&derived)].family };
             let members: Vec<usize> = (0..cases.len()).filter(|i| cases[*i].family == fam).collect();
@@ -470,12 +573,21 @@ pub fn run(o: &Opts) -> i32 {
             (0..k).map(|_| rng.below(cases.len())).collect()
         };
         let sel: Vec<&Case> = idx.iter().map(|i| &cases[*i]).collect();
-        let ops_list = draw_ops(&mut rng, &sel);
+        let ops_list = draw_ops(&mut rng, &sel, epic);
+        if epic {
+            rep.count("epic_runs_300_to_900_operations", 1);
+        }
         let reference = |c: usize, a: usize, d: bool| golden.get(&(idx[c], a, d)).cloned();
         rep.event(&format!("A\trun {run}\tseed={s:x}\tcases={:?}", sel.iter().map(|c| c.id.as_str()).collect::<Vec<_>>()));
-        let before_orders = stats.distinct_orders.len();
-        let (log, viol) = exec(&ops_list, &sel, &reference, &mut stats);
-        let _ = before_orders;
+        // every run executes in its own fresh process (process-global state of earlier runs must
+        // not leak into this one: `./check replay` re-executes exactly what ran here)
+        let (log, viol) = match exec_isolated(o, run, s, &ops_list, &sel, &reference, &mut stats) {
+            Ok(x) => x,
+            Err(e) => {
+                eprintln!("legA: run {run}: {e}");
+                return 2;
+            }
+        };
         for l in &log {
             rep.event(l);
         }
